@@ -144,6 +144,8 @@ class Ctx:
                                text=True, timeout=timeout, env=e, cwd=self.scratch)
         except subprocess.TimeoutExpired:
             raise Inconclusive("harness %s timed out after %ds" % (os.path.basename(binary), timeout))
+        except OSError as ex:
+            raise Inconclusive("harness %s could not be started: %s" % (os.path.basename(binary), ex))
         self.log("ran %s %s rc=%d in %.1fs" % (os.path.basename(binary), " ".join(args)[:120], p.returncode, time.time() - t))
         if check and p.returncode != 0:
             sys.stdout.write(p.stdout[-3000:])
@@ -355,6 +357,11 @@ def main(argv):
                 prop, a.tier, a.seed, time.time() - ctx.t0, len(ctx.known_hits)))
     except Inconclusive as e:
         print("INCONCLUSIVE property=%s %s" % (prop, e), flush=True)
+        rc = 2
+    except Exception as e:  # a bug / environment problem in the machinery is never a verdict about the code
+        import traceback
+        traceback.print_exc()
+        print("INCONCLUSIVE property=%s internal error in the check: %r" % (prop, e), flush=True)
         rc = 2
     finally:
         if a.keep:
